@@ -111,3 +111,30 @@ Theorem pinned_token_cache_refuted :
   pinned_cached_run mac [] 1 [(1000, t); (3000, t)] = [true; true] /\
   map jran (run_jwt mac [] (mkJcfg 1 None) [(1000, CToken t); (3000, CToken t)]) = [true; false].
 Proof. vm_compute. split; reflexivity. Qed.
+
+(* seeded/C18-4: ParseToken parses once and lets a key func choose between secret and
+   prevSecret — also when NO previous secret is configured: then prevSecret is the empty
+   string and the zero-length key (identifier [empty_key], which anybody can sign with)
+   becomes a candidate. *)
+Section PinnedEmptyPrev.
+  Variable mac : alg -> Z -> Z -> Z.
+  Definition empty_key : Z := 0.
+
+  Definition pinned_candidates (c : jcfg) : list Z :=
+    match jprev c with Some p => [jsecret c; p] | None => [jsecret c; empty_key] end.
+
+  Definition pinned_choose_parse (c : jcfg) (now : Z) (t : token) : bool :=
+    existsb (fun k => parse1 mac now k t) (pinned_candidates c).
+End PinnedEmptyPrev.
+
+Theorem pinned_empty_prev_secret_refuted :
+  let mac := fun (a : alg) (k i : Z) => 1 + k + 10 * i in
+  let c := mkJcfg 5 None in
+  let forged := mkToken HS256 7 (Some (mac HS256 empty_key 7)) [(2, VNum 2000)] in
+  pinned_choose_parse mac c 1000 forged = true /\
+  ~ In empty_key (secrets c) /\
+  jran (snd (authorize mac [] c 1000 (CToken forged))) = false.
+Proof.
+  split; [vm_compute; reflexivity|]. split; [|vm_compute; reflexivity].
+  cbn. intros [X|[]]. discriminate.
+Qed.
